@@ -107,6 +107,14 @@ def validate(run, prop, scns, tpath, verdict, max_rejections=4, chunk_events=400
         if sig.startswith("harness-error"):
             raise vlib.Inconclusive("harness error: %s" % json.dumps(e))
         idx = scn[0]["scn"] - 1
+        if sig.startswith("stall:") and 0 <= idx < len(scns) and not os.environ.get("VERIF_NO_STALL_RETRY"):
+            # a stall is only evidence if it is not an artefact of a loaded machine: run the scenario once more, alone
+            tp2, cr2 = execute(run, [scns[idx]], "retry%d" % idx, shards=1)
+            if not cr2:
+                ok2, line2, detail2, _ = run.validate("BrokerTrace", "BrokerTrace.cfg", tp2)
+                if ok2:
+                    run.notes.append("a stall in scenario %d did not reproduce when the scenario was re-run alone; ignored" % (idx + 1))
+                    continue
         verdict.add(sig, "broker trace: event %d %s is not a step of the broker specification; preceding events: %s"
                     % (line, json.dumps(e), json.dumps(context(scn, line - 1))),
                     {"kind": "broker", "scenario": scns[idx] if 0 <= idx < len(scns) else None, "rejected": e,
